@@ -76,6 +76,10 @@ impl Scratch {
                     std::fs::create_dir_all(parent)?;
                 }
                 match content {
+                    // "subst_files": true -> "{S}" inside file contents names this job's scratch directory too
+                    Value::String(c) if job.get("subst_files").and_then(|v| v.as_bool()).unwrap_or(false) => {
+                        std::fs::write(&p, c.replace("{S}", dir.to_str().unwrap_or("")).as_bytes())?
+                    }
                     Value::String(c) => std::fs::write(&p, c.as_bytes())?,
                     // {"hex": "..."} for non-UTF-8 content
                     Value::Object(o) => {
